@@ -20,6 +20,9 @@ type Peer struct {
 	Remote *net.UDPAddr
 	c      *net.UDPConn
 	probeN uint32
+	// stale holds sequence numbers of probes that were never answered while their Probe
+	// call was waiting; a late answer to one of them is not a reaction to a later datagram.
+	stale map[uint32]bool
 	// RecoveryTS is what the peer sends as its Recovery Time Stamp.
 	RecoveryTS time.Time
 }
@@ -118,6 +121,26 @@ func (p *Peer) Recv(d time.Duration) (Dgram, error) {
 	return Dgram{B: append([]byte(nil), buf[:n]...), TS: ts}, nil
 }
 
+// recvFresh is Recv that drops late answers to earlier, abandoned probes.
+func (p *Peer) recvFresh(d time.Duration) (Dgram, error) {
+	deadline := time.Now().Add(d)
+	for {
+		left := time.Until(deadline)
+		if left <= 0 {
+			return Dgram{}, ErrTimeout
+		}
+		dg, err := p.Recv(left)
+		if err != nil {
+			return dg, err
+		}
+		if typ, seq, ok := hdrTypeSeq(dg.B); ok && typ == message.MsgTypeHeartbeatResponse && p.stale[seq] {
+			delete(p.stale, seq)
+			continue
+		}
+		return dg, nil
+	}
+}
+
 // Drain discards everything already queued.
 func (p *Peer) Drain() int {
 	n := 0
@@ -158,6 +181,15 @@ func (p *Peer) Probe(avoidSeq uint32, budget time.Duration) ProbeResult {
 	var res ProbeResult
 	deadline := time.Now().Add(budget)
 	mine := map[uint32]bool{}
+	if p.stale == nil {
+		p.stale = map[uint32]bool{}
+	}
+	delete(p.stale, avoidSeq)
+	defer func() {
+		for s := range mine {
+			p.stale[s] = true
+		}
+	}()
 	wait := 100 * time.Millisecond
 	for time.Now().Before(deadline) {
 		p.probeN++
@@ -178,7 +210,7 @@ func (p *Peer) Probe(avoidSeq uint32, budget time.Duration) ProbeResult {
 			if left <= 0 {
 				break
 			}
-			d, err := p.Recv(left)
+			d, err := p.recvFresh(left)
 			if err != nil {
 				if errors.Is(err, ErrTimeout) {
 					break
@@ -189,6 +221,7 @@ func (p *Peer) Probe(avoidSeq uint32, budget time.Duration) ProbeResult {
 			typ, seq, ok := hdrTypeSeq(d.B)
 			if ok && typ == message.MsgTypeHeartbeatResponse && mine[seq] {
 				res.Alive = true
+				delete(mine, seq)
 				return res
 			}
 			res.Answers = append(res.Answers, d.B)
@@ -216,7 +249,8 @@ func (p *Peer) Request(m message.Message, timeout time.Duration) (resp []byte, e
 	if err = p.Send(m); err != nil {
 		return nil, nil, false, err
 	}
-	d, err := p.Recv(timeout)
+	delete(p.stale, m.Sequence())
+	d, err := p.recvFresh(timeout)
 	if err != nil {
 		// no response: still find out whether the agent lives
 		pr := p.Probe(m.Sequence(), time.Second)
